@@ -1,4 +1,88 @@
 import GluonModel.Sexp
+/-
+Model of the typed JSON codec at the level of `std.json.Value` (std/json.glu:8-15):
+`Serialize` instances of std/json/ser.glu:74-105 and `Deserialize` instances of std/json/de.glu:88-199,
+for the types built from Int, Bool, String, Float, Option and Array. The text layer
+(vm/src/api/json.rs → serde_json) is abstracted as `textRoundTrip rd`, where `rd` says which float
+(bit pattern) the reader returns for the text the printer produced for a given float.
+-/
 namespace GluonModel.StdJson
+
+inductive Json where
+  | null
+  | bool (b : Bool)
+  | int (i : Int)
+  | float (bits : Nat)
+  | str (s : String)
+  | arr (xs : List Json)
+  deriving Repr, Inhabited
+
+inductive Ty where
+  | int | bool | str | float
+  | opt (t : Ty)
+  | arr (t : Ty)
+  deriving Repr, DecidableEq
+
+/-- gluon values of type `t`. -/
+def Ty.den : Ty → Type
+  | .int => Int
+  | .bool => Bool
+  | .str => String
+  | .float => Nat
+  | .opt t => Option t.den
+  | .arr t => List t.den
+
+/-- ser.glu:74-99. `Option`: `Some x -> serialize x`, `None -> Null`. -/
+def ser : (t : Ty) → t.den → Json
+  | .int, i => .int i
+  | .bool, b => .bool b
+  | .str, s => .str s
+  | .float, f => .float f
+  | .opt t, o => match o with
+    | some x => ser t x
+    | none => .null
+  | .arr t, xs => .arr (xs.map (ser t))
+
+def mapM' {α β : Type} (f : α → Option β) : List α → Option (List β)
+  | [] => some []
+  | x :: xs => match f x with
+    | none => none
+    | some y => match mapM' f xs with
+      | none => none
+      | some ys => some (y :: ys)
+
+/-- de.glu:88-199, applied to the Value that `prim.deserialize` (vm/src/api/json.rs:17) builds from the
+    text `prim.serialize` printed. `rd` is the float codec of that text layer: the float (bit pattern)
+    read back for the text printed for a float; everything else survives the text layer unchanged
+    (checked by the oracle against serde_json). `float` also accepts an `Int` (de.glu:106), which is
+    outside the image of `ser`. `option`: `Null -> None`, anything else through the inner one. -/
+def de (rd : Nat → Nat) : (t : Ty) → Json → Option t.den
+  | .int, j => match j with
+    | .int i => some i
+    | _ => none
+  | .bool, j => match j with
+    | .bool b => some b
+    | _ => none
+  | .str, j => match j with
+    | .str s => some s
+    | _ => none
+  | .float, j => match j with
+    | .float f => some (rd f)
+    | _ => none
+  | .opt t, j => match j with
+    | .null => some none
+    | j => (de rd t j).map some
+  | .arr t, j => match j with
+    | .arr xs => mapM' (de rd t) xs
+    | _ => none
+
+/-- Types whose values JSON can represent faithfully: no `Option (Option _)`. -/
+def Representable : Ty → Prop
+  | .opt (.opt _) => False
+  | .opt t => Representable t
+  | .arr t => Representable t
+  | _ => True
+
 def handleJson (_ : List Sexp) : String := "unimplemented"
+
 end GluonModel.StdJson
